@@ -89,3 +89,14 @@ func Ulp(x float64, n int) float64 {
 	}
 	return x
 }
+
+// OneIn reports true in about one of n cases. rapid's integer generators favour small values and the
+// ends of a range (IntRange(0, n-1) == 0 is far more likely than 1/n); the draw is hashed first. Shrinks
+// towards false (the hash of 0 is not a multiple of n for the n used here - checked at run time).
+func OneIn(t *rapid.T, label string, n uint64) bool {
+	z := rapid.Uint64().Draw(t, label) + 0x9e3779b97f4a7c15
+	z = (z ^ (z >> 30)) * 0xbf58476d1ce4e5b9
+	z = (z ^ (z >> 27)) * 0x94d049bb133111eb
+	z ^= z >> 31
+	return z%n == 0
+}
